@@ -127,7 +127,9 @@ class Heap(dict):
                     continue
                 c, x = dict.__getitem__(self, v[1]), dict.__getitem__(self, v[0])
                 t = c.t
-                if isinstance(t, Ty.ODict):
+                if isinstance(t, Ty.List):
+                    comps = [c.c[0]] + [z3.Store(a, v[2], xc) for a, xc in zip(c.c[1:], x.c)]
+                elif isinstance(t, Ty.ODict):
                     n = len(t.keys_t.sorts())
                     comps = list(c.c[: n + 1]) + [z3.Store(a, v[2], xc) for a, xc in zip(c.c[n + 1 :], x.c)]
                 else:
@@ -1671,6 +1673,16 @@ class Engine:
         if not isinstance(base, Ref):
             return val
         cont = st.heap[base.id]
+        if isinstance(cont, V) and isinstance(cont.t, Ty.List) and cont.t.e.mutable and len(cont.t.e.sorts()) == len(vv.c):
+            # x = lst[i]: x IS the i-th element (non-negative index)
+            if z3.is_expr(key_expr):
+                key = key_expr
+            else:
+                key = self.num(self.eval(st, key_expr))
+                key = z3.If(key < 0, cont.c[0] + key, key)
+            ref = val if isinstance(val, Ref) else self.alloc(st, vv)
+            st.heap.add_view(ref.id, base.id, key)
+            return ref
         if not (isinstance(cont, V) and isinstance(cont.t, (Ty.Map, Ty.ODict)) and cont.t.v.mutable and len(cont.t.v.sorts()) == len(vv.c)):
             return val
         key = key_expr if z3.is_expr(key_expr) else self.keyterm(self.deref(st, self.eval(st, key_expr)))
